@@ -113,3 +113,14 @@ for _T2 in (SBytes, SStr):
     for _nm in ("lstrip", "rstrip"):
         if (_T2, _nm) not in _METHODS:
             _METHODS[(_T2, _nm)] = _mk_side_strip(_nm)
+
+
+# default factory for defaultdict(collections.deque) pre-states: always the libx_collections deque representation
+# (SObj(deque, {"_items": SList})), whichever libx module registered CLASS_MODELS[collections.deque] last
+def fresh_deque():
+    return collections.deque()
+
+
+@function(fresh_deque)
+def f_fresh_deque(it):
+    return SObj(collections.deque, {"_items": SList([])})
